@@ -196,6 +196,8 @@ def parse_trace(path):
         if not line:
             continue
         toks = line.split(" ")
+        if len(toks) < 2:       # a torn line (the process died or printed garbage): the case's trace ends here
+            continue
         cid = toks[0]
         if toks[1] == "skipped":
             res.setdefault(cid, []).append({"_skipped": toks[2]})
@@ -208,6 +210,7 @@ def parse_trace(path):
     return res
 
 HUNG = -999
+HARNESS_AS_LIMIT = 6 << 30      # bytes of address space per harness process
 class _Done:
     def __init__(self, rc, out): self.returncode, self.stdout = rc, out
 def run_watched(cmd, outfile, quiet_s=30.0):
@@ -215,7 +218,12 @@ def run_watched(cmd, outfile, quiet_s=30.0):
     [quiet_s] seconds is looping: it is killed and reported with return code HUNG (a violation, never a hung check)."""
     import tempfile
     with tempfile.TemporaryFile("w+") as so:
-        p = subprocess.Popen(cmd, stdout=so, stderr=subprocess.STDOUT, text=True)
+        def limit():
+            # a corrupted implementation may ask the allocator for absurd amounts: it must fail inside that
+            # process (allocation error -> the case is reported), not exhaust the machine
+            import resource
+            resource.setrlimit(resource.RLIMIT_AS, (HARNESS_AS_LIMIT, HARNESS_AS_LIMIT))
+        p = subprocess.Popen(cmd, stdout=so, stderr=subprocess.STDOUT, text=True, preexec_fn=limit)
         last, t_last = -1, time.time()
         while True:
             try:
